@@ -390,6 +390,11 @@ def e2e_assignment_oracle(d):
             return ("not-one-to-one", "track %d continued by two detections in one call" % t)
         used.append(t)
         z = w.get((di, t))
+        elig = set() if d.get("elig", "-") == "-" else set(int(x) for x in d["elig"].split(","))
+        if t not in elig:
+            return ("expired-track-continued", "detection %d continues track %d although that track is not among the unexpired tracks of the "
+                    "scene (idle for more than max_idle epochs, epochs counted by the check: one per predict call of the scene); "
+                    "unexpired: %s" % (di, t, sorted(elig)))
         if z is None and (di, t) in farok:
             return ("out-of-reach-continued", "detection %d continues track %d although it is out of bounding-circle reach of the track's last box "
                     "(Universal2DBox::too_far(detection, last predicted box) is true; only the chi-square gate admits the pair)" % (di, t))
@@ -467,8 +472,9 @@ def parse_hist(h):
         dets = []
         if c != "-":
             for b in c.split(";"):
-                l, t, w, hh, conf = [f(int(x)) for x in b.split("/")]
-                dets.append((l + w / 2.0, t + hh / 2.0, 0.0, w / hh, hh, conf))
+                v = [f(int(x)) for x in b.split("/")]
+                l, t, w, hh, conf = v[:5]
+                dets.append((l + w / 2.0, t + hh / 2.0, v[5] if len(v) > 5 else 0.0, w / hh, hh, conf))
         calls.append(dets)
     return {"mode": m["mode"], "thr": f(int(m["thr"])), "minconf": f(int(m["minconf"])), "calls": calls}
 
@@ -654,6 +660,12 @@ def run(chk):
     for l in e2e_lines:
         if l.startswith("e2ehist "):
             cur_hist = l
+            hm = kv(l)
+            hist["e2e_histories_api_" + hm.get("api", "sort")] += 1
+            if hm.get("hist", "1") != hm.get("maxidle"):
+                hist["e2e_histories_history_length_differs_from_max_idle"] += 1
+            if any(b.count("/") == 5 for c in hm["calls"].split("|") for b in c.split(";")):
+                hist["e2e_histories_oriented_boxes_shared_tilt"] += 1
         elif l.startswith("e2e "):
             d = kv(l)
             e2e_calls += 1
